@@ -250,7 +250,7 @@ Lemma cmp_val_toQ op a b x y : toQ a = Some x -> toQ b = Some y -> cmp_val op a 
 Proof.
   destruct a, b; cbn [toQ]; intros Ha Hb; try discriminate; injection Ha as <-; injection Hb as <-;
     try reflexivity.
-  cbn [cmp_val]. f_equal. unfold qcmp, Qltb, Qleb, Qeqb, Z.ltb, Z.leb. rewrite !Qcompare_inject_Z.
+  cbn [cmp_val cmp_scalar]. f_equal. unfold qcmp, Qltb, Qleb, Qeqb, Z.ltb, Z.leb. rewrite !Qcompare_inject_Z.
   destruct op; try reflexivity.
   - rewrite Z.eqb_compare. reflexivity.
   - rewrite Z.eqb_compare. reflexivity.
@@ -436,3 +436,6 @@ Proof.
   rewrite (map_opt_map_some _ _ (fun r => VA (map (fun _ : Q => VQ (1 * v)%Q) r))); [reflexivity|].
   intros r. cbn [bc_l]. rewrite (map_opt_map_some _ _ (fun _ : Q => VQ (1 * v)%Q)); reflexivity.
 Qed.
+
+Lemma val_eqb_VT2 a b a' b' : val_eqb (VT [a; b]) (VT [a'; b']) = val_eqb a a' && val_eqb b b'.
+Proof. cbn [val_eqb]. rewrite andb_true_r. reflexivity. Qed.
